@@ -947,6 +947,8 @@ class Gen(object):
             elif q < 0.45:
                 ko, _ = self.pick(self.is_real)
                 op['out_like'] = ko
+            if op['f'] == 'sum' and 'out_like' not in op and r.random() < 0.3:
+                op['legacy'] = r.choice(['sizes', 'sizes', 'dtype'])      # fxp_sum, the older spelling
         return op
 
     def g_npfunc(self):
@@ -1411,6 +1413,7 @@ class Gen(object):
             add(6, lambda: self.g_arith(['add', 'sub', 'mul', 'add', 'sub', 'mul', 'truediv', 'floordiv', 'mod'],
                                         judged=True), 'derive_arith')
             add(2, self.g_reduce, 'derive_reduce')
+            add(1, self.g_npfunc, 'derive_reduce')
             add(2, self.g_unary, 'derive_arith')
             add(1, self.g_like)
             add(1, self.g_deepcopy)
